@@ -137,6 +137,8 @@ def _entity_havoc(S, env):
     t.fields["tokenQueue"] = S.anylist("tokenQueue_after_reference", cls="deque")
     if env.d.get("fromAttribute"):
         t.fields["currentToken"].entries["data"][0].items[-1].items[1] = S.str("value_after_reference")
+    # ghost: how the reference consumer was called (the calling states' contracts name it)
+    t.fields["ghost_entity_call"] = (env.d.get("allowedChar"), bool(env.d.get("fromAttribute")))
 
 
 @contract(TOK + ".consumeEntity")
